@@ -37,17 +37,43 @@ func (s *Server) startGateway(network string, ln net.Listener) net.Listener {
 
 	if !s.DisableJSONRPC {
 		jsonrpc2Ln := m.Match(cmux.HTTP1HeaderField("X-JSONRPC-2.0", "true"))
-		go s.startJSONRPC2(jsonrpc2Ln)
+		go s.startJSONRPC2(&acceptPluginListener{Listener: jsonrpc2Ln, s: s})
 	}
 
 	if !s.DisableHTTPGateway {
 		httpLn := m.Match(cmux.HTTP1Fast()) // X-RPCX-MessageID
-		go s.startHTTP1APIGateway(httpLn)
+		go s.startHTTP1APIGateway(&acceptPluginListener{Listener: httpLn, s: s})
 	}
 
 	go m.Serve()
 
 	return rpcxLn
+}
+
+// acceptPluginListener applies the PostConnAccept plugins (whitelist, blacklist, rate limiting ...)
+// to the connections of the HTTP gateway and JSON-RPC endpoints, as serveListener does for
+// connections of the native protocol.
+type acceptPluginListener struct {
+	net.Listener
+	s *Server
+}
+
+func (l *acceptPluginListener) Accept() (net.Conn, error) {
+	for {
+		conn, err := l.Listener.Accept()
+		if err != nil {
+			return nil, err
+		}
+		if l.s.Plugins == nil {
+			return conn, nil
+		}
+		c, ok := l.s.Plugins.DoPostConnAccept(conn)
+		if !ok {
+			conn.Close()
+			continue
+		}
+		return c, nil
+	}
 }
 
 func http1Path(prefix string) cmux.Matcher {
